@@ -18,6 +18,8 @@ def run(rep):
     c10.v5(rep, w, 'U4')      # index arithmetic on program-chosen integers cannot overflow (-inf / isize::MIN boundary)
     u5(rep, w)
     u6(rep, w)
+    import c01, c01_flow
+    c01_flow.r5b(rep, w, c01.may_gc(w))     # slicing copies operands off the stack: they stay rooted until the result exists
 
 
 def u1(rep, w):
